@@ -217,4 +217,75 @@ def pbviRun (m : Pomdp) (beliefs : List (Nat → Rat)) : Nat → VF
   | 0 => zeroVF m.S
   | h+1 => pbviRun m beliefs h ++ [pbviStep m beliefs (vlist (pbviRun m beliefs h) ((pbviRun m beliefs h).length - 1))]
 
+/-! ## PERSEUS::operator(): the belief sweep (belief list = parameter) -/
+
+/-- `PERSEUS::crossSum(projs, beliefs, oldV)` before the final `extractDominated`: a belief already improved by the
+    new list (`currentValue >= oldValue`) is skipped; otherwise the all-actions point backup is appended -/
+def perseusLoop (m : Pomdp) (prev : VList) : List (Nat → Rat) → VList → VList
+  | [], res => res
+  | b :: bs, res =>
+    if !res.isEmpty && decide ((bestAtPoint m.S b prev).2 ≤ (bestAtPoint m.S b res).2) then perseusLoop m prev bs res
+    else perseusLoop m prev bs (res ++ [crossSumBestAtBeliefAll m.S b (fun a => (List.range m.O).map (fun o => project m prev a o)) m.A])
+
+def perseusStep (m : Pomdp) (beliefs : List (Nat → Rat)) (prev : VList) : VList :=
+  extractDominated m.S (perseusLoop m prev beliefs [])
+
+/-- horizon-0 entry filled with `minReward / (1 - discount)` (any value `v0`) -/
+def perseusRun (m : Pomdp) (beliefs : List (Nat → Rat)) (v0 : Rat) : Nat → VF
+  | 0 => [[⟨List.replicate m.S v0, 0, []⟩]]
+  | h+1 => perseusRun m beliefs v0 h ++
+      [perseusStep m beliefs (vlist (perseusRun m beliefs v0 h) ((perseusRun m beliefs v0 h).length - 1))]
+
+/-! ## Witness::operator(): per-action agenda loop (witness LP = oracle) -/
+
+def subV : List Rat → List Rat → List Rat
+  | x :: xs, y :: ys => (x - y) :: subV xs ys
+  | _, _ => []
+
+structure WState where
+  U : VList
+  agenda : List (List Rat)
+  tried : List (List Nat)
+
+/-- `addVariations(projs, variated)`: for every observation and every other projection index not tried yet, push the
+    varied vector; `vObs[o]` doubles as index into `projs[o]` (the projections are unpruned) -/
+def addVariations (row : List VList) (variated : VEntry) (st : WState) : WState :=
+  ((List.range row.length).foldl (fun (acc : WState × List Nat) o =>
+      let projs := row.getD o []
+      let skip := acc.2.getD o 0
+      let st' := (List.range projs.length).foldl (fun (st : WState) i =>
+          if i = skip then st else
+          let vObs := acc.2.set o i
+          if st.tried.contains vObs then st else
+          { st with tried := vObs :: st.tried,
+                    agenda := st.agenda ++ [addV (subV variated.values (entryAt projs skip).values) (entryAt projs i).values] }) acc.1
+      (st', acc.2)) (st, variated.obs)).1
+
+/-- the `while (!agenda_.empty())` loop; the last agenda element is `agenda_.back()` -/
+def witnessLoop2 (S : Nat) (wit : VList → List Rat → Option (Nat → Rat)) (row : List VList) (a : Nat) : Nat → WState → WState
+  | 0, st => st
+  | f+1, st =>
+    match st.agenda.getLast? with
+    | none => st
+    | some v =>
+      match wit st.U v with
+      | some b =>
+        let e := crossSumBestAtBeliefRow S b row a
+        witnessLoop2 S wit row a f (addVariations row e { st with U := st.U ++ [e] })
+      | none => witnessLoop2 S wit row a f { st with agenda := st.agenda.dropLast }
+
+/-- `addDefaultEntry` + loop for one action: returns `U[a]` -/
+def witnessAction (m : Pomdp) (wit : VList → List Rat → Option (Nat → Rat)) (fuel : Nat) (prev : VList) (a : Nat) : VList :=
+  let row := (List.range m.O).map (fun o => project m prev a o)
+  let v0 := row.foldl (fun acc r => addV acc (entryAt r 0).values) (List.replicate m.S 0)
+  (witnessLoop2 m.S wit row a fuel ⟨[], [v0], [List.replicate m.O 0]⟩).U
+
+def witnessStep (m : Pomdp) (wit : VList → List Rat → Option (Nat → Rat)) (pr : VList → VList) (fuel : Nat) (prev : VList) : VList :=
+  pr ((List.range m.A).flatMap (witnessAction m wit fuel prev))
+
+def witnessRun (m : Pomdp) (wit : VList → List Rat → Option (Nat → Rat)) (pr : VList → VList) (fuel : Nat) : Nat → VF
+  | 0 => zeroVF m.S
+  | h+1 => witnessRun m wit pr fuel h ++
+      [witnessStep m wit pr fuel (vlist (witnessRun m wit pr fuel h) ((witnessRun m wit pr fuel h).length - 1))]
+
 end AITB.Plan
